@@ -45,6 +45,8 @@ var witnesses = []witness{
 		op: "EXCEPT", observed: "0 non-NULL output rows [], the '='-classes of the two inputs require 1"},
 	{id: "C07-distinct-collation", l: vcAI, r: vcAI, lv: []string{"'a'"}, rv: []string{"'A'"}, inList: []string{"'q'"},
 		op: "INTERSECT", observed: "0 non-NULL output rows [], the '='-classes of the two inputs require 1"},
+	{id: "C07-setop-convert-collation", l: vcAI, r: txtAI, lv: []string{"'a'"}, rv: []string{"'A'"}, inList: []string{"'q'"},
+		op: "UNION", observed: "2 non-NULL output rows [(s:a) (s:A)], the '='-classes of the two inputs require 1"},
 	{id: "C07-setop-decimal-scale", l: numKinds[5], r: numKinds[6], lv: []string{"1.5"}, rv: []string{"1.5"}, inList: []string{"7"},
 		op: "UNION", observed: "2 non-NULL output rows [(n:3/2) (n:3/2)], the '='-classes of the two inputs require 1"},
 	{id: "C07-insubquery-left-conversion", l: timeKinds[1], r: timeKinds[0], lv: []string{"'2020-01-01 12:00:00'"}, rv: []string{"'2020-01-01'"}, inList: []string{"'2001-01-01'"},
